@@ -597,7 +597,7 @@ def rules(repo, tier):
     from ..mode import mode_rules
     from ..callsig import rule_callsig
     from ..docsig import rule_docsig
-    return list(_rules_core(repo, tier)) + [rule_view07(repo), __import__('sa.mode', fromlist=['x']).rule_sharedstate(repo, 'C07.SHAREDSTRAT', ['pypose.optim.strategy']), rule_memo(repo, 'C07.MEMO', 'history independence: nothing computed from the contents of a tensor argument is kept '
+    return list(_rules_core(repo, tier)) + __import__('sa.core', fromlist=['x']).reid([__import__('sa.rules.c08', fromlist=['x']).rule_rej_exc_strat(repo, tier), __import__('sa.rules.c08', fromlist=['x']).rule_ts(repo, tier), __import__('sa.rules.c10', fromlist=['x']).rule_tri(repo, tier), __import__('sa.core', fromlist=['x']).guarded(__import__('sa.rules.c10', fromlist=['x']).rule_budget)(repo, tier), __import__('sa.rules.c05', fromlist=['x']).rule_retr_add(repo), __import__('sa.rules.c04', fromlist=['x']).rule_sb(repo, tier), __import__('sa.rules.c04', fromlist=['x']).rule_vt(repo, tier)], 'C07') + [rule_view07(repo), __import__('sa.mode', fromlist=['x']).rule_sharedstate(repo, 'C07.SHAREDSTRAT', ['pypose.optim.strategy']), rule_memo(repo, 'C07.MEMO', 'history independence: nothing computed from the contents of a tensor argument is kept '
                                                       'under the identity, address or version of that tensor, in module-level storage, or published from a generator '
                                                       'before it is complete - a later call with the same object and other contents must not be answered from it',
                                                       ['pypose.optim.optimizer', 'pypose.optim.solver', 'pypose.optim.corrector', 'pypose.optim.functional'], floor=3),
